@@ -623,7 +623,8 @@ def r_nullfeed(ctx, prog):
 
 
 def _is_role_mask_test(a, mask):
-    if a[0] != 'cmp' or a[1] != 'ne' or a[3] != ('const', 0):
+    # (type & mask) != 0 and (type & mask) == 0 are the two sides of one mask test
+    if a[0] != 'cmp' or a[1] not in ('ne', 'eq') or a[3] != ('const', 0):
         return False
     t = a[2]
     return t[0] == 'bin' and t[1] == 'and' and ('const', mask) in (t[2], t[3]) and \
@@ -807,7 +808,8 @@ def r_rowdeg2(ctx, prog):
                             else:
                                 problems.append((icmp, 'the test of the second entry starts from a pointer that need not be the '
                                                  'first entry of the row'))
-                    elif ct[0] == 'cmp' and ct[1] == 'ugt' and ct[3] == ('const', 1) and not pol and 'load' not in repr(ct[2]):
+                    elif ct[0] == 'cmp' and ct[3] == ('const', 1) and 'load' not in repr(ct[2]) and \
+                            ((ct[1] == 'ugt' and not pol) or (ct[1] == 'ule' and pol)):
                         out = frozenset()       # assumption: more than one source column
                 if state_out.get((b.id, s2.id)) != out:
                     state_out[(b.id, s2.id)] = out
